@@ -105,6 +105,7 @@ def pred_1d(case):
     c_again = -0.75 * c[:nfree][::-1] + 0.3
     if space["periodic"]:
         c_again = np.concatenate([c_again, c_again[:p]])
+    held = []        # (what, returned array, copy made at once): a later call must not change an earlier result
     for tag, c in (("", c_first), (":reused", c_again), (":reused", c_first)):
         spl.coeffs[:] = c
         for der in (0, 1):
@@ -115,6 +116,7 @@ def pred_1d(case):
                 got_vec = np.full(len(pts), np.nan)
                 spl.eval_vector(pts.copy(), got_vec, der)
                 got_sc = np.array([spl.eval(float(x), der) for x in pts])
+            held.append(("Spline1D.eval(array, der=%d)" % der, got_arr, np.array(got_arr, copy=True)))
             if p == 1 and der == 1:
                 left = ref.left_derivative(c, pts)
                 for name, got in (("eval(array)", got_arr), ("eval_vector", got_vec), ("eval(scalar)", got_sc)):
@@ -127,6 +129,10 @@ def pred_1d(case):
                 _cmp("Spline1D.eval(array) der=%d" % der, got_arr, want, tol, pts, "C07:%s:eval-array:der%d%s" % (path, der, tag))
                 _cmp("Spline1D.eval_vector der=%d" % der, got_vec, want, tol, pts, "C07:%s:eval-vector:der%d%s" % (path, der, tag))
                 _cmp("Spline1D.eval(scalar) der=%d" % der, got_sc, want, tol, pts, "C07:%s:eval-scalar:der%d%s" % (path, der, tag))
+    for what, arr, snap in held:
+        if not np.array_equal(arr, snap, equal_nan=True):
+            raise Violation("C07:%s:result-overwritten" % path, "the array returned by %s was changed by a later evaluation "
+                            "(results share storage)" % what)
     # ---- BSplines[i] is the i-th basis function ----------------------------------------------
     j = case["basis_index"]
     with crash_is_violation("C07:getitem", "BSplines[i]"):
@@ -228,6 +234,7 @@ def pred_2d(case):
     x2 = np.concatenate([x2[:3], x2[-(len(fr2) + 3):]])
     path = "cu" if b1.cubic_uniform else "nu"
     # new coefficients are written in place into the same Spline2D object and it is evaluated again
+    held = []
     for tag, C in (("", C_first), (":reused", C_again), (":reused", C_first)):
         spl.coeffs[:] = C
         s = float(np.abs(C).sum()) + 1e-300
@@ -250,6 +257,7 @@ def pred_2d(case):
                 key = "C07:%s:2d:der%d%d%s" % (path, d1, d2, tag)
                 with crash_is_violation("C07:eval2d", "Spline2D evaluation (%s, der %d,%d)" % (path, d1, d2)):
                     got_grid = spl.eval(y1.copy(), y2.copy(), d1, d2)
+                    held.append(("Spline2D.eval(grid, der=(%d,%d))" % (d1, d2), got_grid, np.array(got_grid, copy=True)))
                     got_vec = np.full((len(y1), len(y2)), np.nan)
                     spl.eval_vector(y1.copy(), y2.copy(), got_vec, d1, d2)
                     got_sc = np.array([[spl.eval(float(a), float(b), d1, d2) for b in y2] for a in y1])
@@ -262,6 +270,10 @@ def pred_2d(case):
                 _cmp("Spline2D.eval_vector der=(%d,%d)" % (d1, d2), got_vec, want, tol, None, key + ":vector")
                 _cmp("Spline2D.eval(scalar) der=(%d,%d)" % (d1, d2), got_sc, want, tol, None, key + ":scalar")
                 _cmp("eval_spline_2d_vector der=(%d,%d)" % (d1, d2), z, np.diag(want[:m, :m]), tol, None, key + ":pairwise")
+    for what, arr, snap in held:
+        if not np.array_equal(arr, snap, equal_nan=True):
+            raise Violation("C07:%s:2d:result-overwritten" % path, "the array returned by %s was changed by a later evaluation "
+                            "(results share storage)" % what)
     return {"nontrivial": float(np.ptp(C)) > 0,
             "labels": [path, "%s-%s" % ("per" if s1["periodic"] else "cl", "per" if s2["periodic"] else "cl")],
             "evals": 48 * len(x1) * len(x2)}
